@@ -195,6 +195,7 @@ func (m *Model) opCases() *opCaseResult {
 	}
 	L, R := iSym{name: "L"}, iSym{name: "R"}
 	var allEvents [][]string // the operand evaluations of every path of the last case evaluated
+	sameOperand := false // both operands evaluate to one and the same object (`x == x`, `arr[0] == arr[0]`)
 	evalCase := func(sym string, lk, rk string) ([]symPath, []string, bool) {
 		var events []string
 		allEvents = nil
@@ -203,6 +204,7 @@ func (m *Model) opCases() *opCaseResult {
 			defer func() { allEvents = append(allEvents, append([]string{}, events...)) }()
 			lnode, rnode := iObj{"left operand"}, iObj{"right operand"}
 			node := &iStruct{typ: infixT, fields: map[int]any{fOp: constant.MakeString(sym), fL: lnode, fR: rnode}}
+			var leftObj *iStruct
 			ip := &Interp{m: m, useGlobals: true, branch: branch}
 			if lk == "INTEGER" && rk == "INTEGER" && (sym == "/" || sym == "%") {
 				ip.instr = func(in ssa.Instruction, _ int) {
@@ -222,9 +224,13 @@ func (m *Model) opCases() *opCaseResult {
 					switch args[1] {
 					case any(lnode):
 						events = append(events, "left")
-						return &iStruct{typ: kindT[lk], fields: map[int]any{valIdx[lk]: L}}, true
+						leftObj = &iStruct{typ: kindT[lk], fields: map[int]any{valIdx[lk]: L}}
+						return leftObj, true
 					case any(rnode):
 						events = append(events, "right")
+						if sameOperand && leftObj != nil {
+							return leftObj, true
+						}
 						return &iStruct{typ: kindT[rk], fields: map[int]any{valIdx[rk]: R}}, true
 					}
 					events = append(events, "other")
@@ -406,6 +412,54 @@ func (m *Model) opCases() *opCaseResult {
 			}
 		}
 	}
+	// one and the same object on both sides (`x == x` for a variable, an element, a property; `true == true`, where both
+	// sides are the TRUE singleton): the comparison still looks at the payloads — a NaN is not equal to itself — and a
+	// kind without operators still yields an error. An "identical objects are equal" shortcut breaks both.
+	if boolT != nil {
+		kindT["BOOLEAN"], valIdx["BOOLEAN"] = boolT, bVal
+	}
+	sameOperand = true
+	for _, kind := range []string{"FLOAT", "INTEGER", "BOOLEAN"} {
+		if kindT[kind] == nil {
+			continue
+		}
+		for _, sym := range []string{"==", "!="} {
+			r.cases++
+			key := kind + " " + sym + " (one object on both sides)"
+			paths, _, complete := evalCase(sym, kind, kind)
+			if !complete {
+				r.why = key + ": too many branches on the payloads"
+				sameOperand = false
+				return r
+			}
+			for _, p := range paths {
+				if p.stuck != "" {
+					r.why = key + ": " + p.stuck
+					sameOperand = false
+					return r
+				}
+			}
+			for _, p := range paths {
+				if kind == "BOOLEAN" {
+					if !p.known || !isErr(p.res) {
+						r.bad[key] = "`b " + sym + " b` with one boolean object on both sides does not yield an error object: booleans have no operators, and an identity shortcut makes `true == true` render 1 while `true == false` fails"
+					}
+					continue
+				}
+				o, isO := p.res.(*iStruct)
+				if !p.known || !isO || o.typ != boolT {
+					r.bad[key] = "the result is not a boolean object"
+					continue
+				}
+				// the result is decided by a comparison of the payload with itself: a branch on it, or a symbolic value
+				_, isSym := o.fields[bVal].(iSym)
+				if len(p.choices) == 0 && !isSym {
+					r.bad[key] = fmt.Sprintf("`x %s x` with one %s object on both sides yields a constant without comparing the payloads: for a NaN `x == x` is false", sym, kind)
+				}
+			}
+		}
+	}
+	sameOperand = false
 	r.decided = true
 	return r
 }
